@@ -83,6 +83,18 @@ fn real_main() -> i32 {
         return 2;
     }
     let id = args[1].clone();
+    if id == "calibrate" {
+        return match props::calibration::run_calibration() {
+            Ok(s) => {
+                println!("{}", s);
+                0
+            }
+            Err(e) => {
+                eprintln!("{}", e);
+                2
+            }
+        };
+    }
     let mut tier = match std::env::var("VERIF_TIER").as_deref() {
         Ok("thorough") => Tier::Thorough,
         _ => Tier::Quick,
